@@ -2,12 +2,29 @@
 #include "clause.h"
 #include "sat_value_listener.h"
 #include "theory.h"
+#include "verif_hooks.h"
 #include <algorithm>
 #include <cmath>
 #include <cassert>
 
 namespace smt
 {
+#ifdef ORATIO_VERIF
+    namespace verif
+    {
+        SMT_EXPORT tracer *&current() noexcept
+        {
+            static tracer *tr = nullptr;
+            return tr;
+        }
+        SMT_EXPORT int &next_origin() noexcept
+        {
+            static thread_local int o = o_theory_record;
+            return o;
+        }
+    } // namespace verif
+#endif
+
     SMT_EXPORT sat_core::sat_core()
     {
         [[maybe_unused]] var c_false = new_var(); // the false constant..
@@ -53,6 +70,7 @@ namespace smt
 
     SMT_EXPORT bool sat_core::new_clause(std::vector<lit> lits) noexcept
     {
+        ORATIO_VERIF_WRAP(new_clause(lits), clause(*this, lits, vr_));
         assert(root_level());
         // we check if the clause is already satisfied and filter out false/duplicate literals..
         std::sort(lits.begin(), lits.end(), [](const auto &l0, const auto &l1)
@@ -83,6 +101,7 @@ namespace smt
 
     lit sat_core::new_eq(const lit &left, const lit &right) noexcept
     {
+        ORATIO_VERIF_WRAP(new_eq(left, right), def_bool(*this, "eq", {left, right}, vr_));
         assert(root_level());
         // we try to avoid creating a new variable..
         switch (value(left))
@@ -140,6 +159,7 @@ namespace smt
 
     SMT_EXPORT lit sat_core::new_conj(std::vector<lit> ls) noexcept
     {
+        ORATIO_VERIF_WRAP(new_conj(ls), def_bool(*this, "conj", ls, vr_));
         assert(root_level());
         // we try to avoid creating a new variable..
         std::sort(ls.begin(), ls.end(), [](const auto &l0, const auto &l1)
@@ -185,6 +205,7 @@ namespace smt
 
     SMT_EXPORT lit sat_core::new_disj(std::vector<lit> ls) noexcept
     {
+        ORATIO_VERIF_WRAP(new_disj(ls), def_bool(*this, "disj", ls, vr_));
         assert(root_level());
         // we try to avoid creating a new variable..
         std::sort(ls.begin(), ls.end(), [](const auto &l0, const auto &l1)
@@ -230,6 +251,7 @@ namespace smt
 
     SMT_EXPORT lit sat_core::new_at_most_one(std::vector<lit> ls) noexcept
     {
+        ORATIO_VERIF_WRAP(new_at_most_one(ls), def_bool(*this, "amo", ls, vr_));
         assert(root_level());
         // we try to avoid creating a new variable..
         std::sort(ls.begin(), ls.end(), [](const auto &l0, const auto &l1)
@@ -304,6 +326,7 @@ namespace smt
 
     SMT_EXPORT lit sat_core::new_exct_one(std::vector<lit> ls) noexcept
     {
+        ORATIO_VERIF_WRAP(new_exct_one(ls), def_bool(*this, "exo", ls, vr_));
         assert(root_level());
         // we try to avoid creating a new variable..
         std::sort(ls.begin(), ls.end(), [](const auto &l0, const auto &l1)
@@ -417,6 +440,7 @@ namespace smt
                     while (decision_level() > bt_level)
                         pop();
                     // we record the no-good..
+                    ORATIO_VERIF_ORIGIN(verif::o_analysis);
                     record(no_good);
 
                     goto main_loop;
@@ -480,6 +504,7 @@ namespace smt
 
         // we reverse the no-good and store it..
         std::reverse(no_good.begin(), no_good.end());
+        ORATIO_VERIF_ORIGIN(verif::o_next);
         record(std::move(no_good));
 
         return propagate();
@@ -552,6 +577,8 @@ namespace smt
 
     void sat_core::record(std::vector<lit> lits) noexcept
     {
+        ORATIO_VERIF_HOOK(learnt(*this, lits, verif::next_origin()));
+        ORATIO_VERIF_ORIGIN(verif::o_theory_record);
         assert(value(lits[0]) == Undefined);
         assert(std::count_if(lits.cbegin(), lits.cend(), [this](auto &p)
                              { return value(p) == True; }) == 0);
